@@ -9,6 +9,7 @@ CONSTANTS
   FineTime = TRUE
   SlowWrites = TRUE
   SlowRtx = "no"
+  IgnoreToo = TRUE
   FailAts = {0, 1, 2, 7}
   MaxDepth = 9
 CONSTRAINT DepthBound
